@@ -156,6 +156,17 @@ func (f *fileDecorator) fragment(node ast.Node) {
 						line = nextLine
 						i++
 
+						// any further empty lines that directly follow are part of the same
+						// empty line fragment:
+						for i < max-1 {
+							following := f.Fset.PositionFor(token.Pos(i+1), false).Line
+							if following == line {
+								break
+							}
+							line = following
+							i++
+						}
+
 					} else {
 						// add a new line fragment
 						f.addNewlineFragment(token.Pos(i-1), false)
